@@ -1,6 +1,6 @@
 (* C18 driver: one case per input line, one result line per case (see harness/C18 for the format).
    argv[3] = variant: repaired (= /repo HEAD, the only one the check uses); the historical ones
-   (pre_88f69f7, pre_b6afef3, keeponly, staleonly, modefix, curmfix) are for triage by hand only *)
+   (pre_31f4cb6, pre_88f69f7, pre_b6afef3, keeponly, staleonly, modefix, curmfix) are for triage by hand only *)
 let npaths = 5
 let kv toks =
   List.filter_map (fun t -> match String.index_opt t '=' with
@@ -84,7 +84,7 @@ let hex_of l = if l = [] then "-" else String.concat "" (List.map (fun x -> Prin
 let () =
   let variant = if Array.length Sys.argv > 3 then Sys.argv.(3) else "repaired" in
   let v = match variant with
-    | "repaired" -> repaired | "leaves_residue" -> leaves_residue
+    | "repaired" -> repaired | "pre_31f4cb6" -> pre_31f4cb6
     | "pre_88f69f7" -> pre_88f69f7 | "pre_b6afef3" -> pre_b6afef3
     | "keeponly" -> { v_mode_fix = true; v_curm_fix = true; v_keep_fix = true; v_stale_fix = false; v_same_fix = false }
     | "staleonly" -> { v_mode_fix = true; v_curm_fix = true; v_keep_fix = false; v_stale_fix = true; v_same_fix = false }
